@@ -226,6 +226,16 @@ func c12Scenario(c *Ctx, idx int, r *Rng) (mline, mimpl, mcase string) {
 		}
 	}
 	w.git("checkout", "-q", "master")
+	// two refs in different namespaces with the same short name (release branch `v1` + release tag `v1`):
+	// legal in Git, and each of them has to follow its commit
+	if tl := strings.Fields(w.must("tag", "-l")); len(tl) > 0 && r.Chance(40) {
+		tn := Pick(r, tl)
+		at := Pick(r, strings.Fields(w.must("rev-list", "--all")))
+		if _, code := w.git("branch", "-f", tn, at); code == 0 {
+			log("branch %s (same short name as the tag) at %s", tn, at[:8])
+			c.R.Count("refs.branch-and-tag-share-a-name")
+		}
+	}
 	// ---- before
 	oldH, oldOrder := c12ReadHistory(w)
 	oldRefs := w.must("for-each-ref", "--format=%(refname) %(objecttype) %(objectname) %(*objectname)")
